@@ -68,8 +68,9 @@ ASSUMPTIONS = [
     "management operations answering 5xx (e.g. a violated UNIQUE constraint) are modelled as refusals that leave the "
     "store unchanged; adding a stream whose directory exists replaces that stream with everything it owns (/repo 9090ca4);"
     " the property's 5xx clause is about manifests of listed streams",
-    "manifests requested after every step for every listed stream and multi-period stream: hand_made.mpd in vod and "
-    "live mode, with and without timeline=1 (streams also vod with drm=all); media "
+    "manifests requested after every step for every listed stream (vod and live) and multi-period stream (vod; live "
+    "with none/drm=all/timeline=1): hand_made.mpd under the selection vectors none, drm=all, drm=clearkey, acodec=ec-3, "
+    "abr=0, timeline=1; an answer is re-used while nothing the manifest can depend on has changed; media "
     "requested: init and first media segment (live and vod) of every stream's timing-reference file",
     "stream defaults (Stream.defaults JSON) are not part of the modelled state (no reference or constraint depends on "
     "them): setDefaults only answers ok/nf/rej; the generator submits every field of the defaults page with legal "
@@ -699,7 +700,7 @@ def grid_histories(thorough: bool):
     h.append(("sd", 1, (), True))
     out.append(h)
     # 2. payload shapes: each as the only video of a stream, as timing reference, as a Period
-    for kind in ("v3", "vn", "fv", "ev", "vz"):
+    for kind in (("v3", "vn", "fv", "ev", "vz") if thorough else ("v3", "vn", "ev")):
         out.append([("as", "alpha", "T0x"), ("up", 1, "va", ".mp4", kind), ("ix", 1), ("up", 1, "aa", ".mp4", "a4"), ("ix", 2),
                     ("up", 1, "tx", ".mp4", "ft"), ("ix", 3), ("es", 1, "alpha", "Tjson", "va"),
                     ("am", "mpsone", "MPS_one", (P(None, "p1", 1, 1, [1, 3, 4]),)),
@@ -777,8 +778,8 @@ def channels(ctx):
         return
     rng = ctx.rng("store_hist")
     t0 = time.time()
-    budget = 140 if not ctx.thorough else 780      # safety net only: the counts below are what normally ends the loop
-    n_hist = ctx.scale(65, 150)
+    budget = 75 if not ctx.thorough else 700      # safety net only: the counts below are what normally ends the loop
+    n_hist = ctx.scale(50, 150)
     max_len = 12 if not ctx.thorough else 60
     hs = []
     for ops in corpus_histories():
@@ -787,6 +788,7 @@ def channels(ctx):
     for ops in grid_histories(ctx.thorough):
         hs.append(run_history(w, ops))
         ch.count("grid_history_steps", len(ops))
+    t0 = time.time()                      # the budget is a safety net for the random part only
     for i in range(n_hist):
         if time.time() - t0 > budget:
             ch.count("stopped_by_time_budget")
